@@ -54,6 +54,10 @@ pub enum Outcome {
     Hang(u64, f64),
     /// the parent's wall-clock watchdog fired (inconclusive)
     WallTimeout(u64),
+    /// the child was ended by SIGKILL that the watchdog did not send (inconclusive): no panic, abort, stack
+    /// overflow or fault of the code under test ends a process that way; it is the kernel's out-of-memory killer
+    /// or an operator
+    Killed(u64),
 }
 
 /// Child side: runs the cases of this shard from `spec.start` on. Never returns.
@@ -204,8 +208,14 @@ pub fn run_children(
                         progressed = true;
                     } else if let Some(i) = open {
                         let _g = lock.lock().unwrap();
+                        let sigkill = {
+                            use std::os::unix::process::ExitStatusExt;
+                            matches!(&status, Ok(s) if s.signal() == Some(libc::SIGKILL))
+                        };
                         if wall_fired {
                             sink(Outcome::WallTimeout(i));
+                        } else if sigkill {
+                            sink(Outcome::Killed(i));
                         } else {
                             let st = match status {
                                 Ok(s) => {
